@@ -145,8 +145,10 @@ def check_unit(spec_path, do_twins=True, keep=True):
     res["drops"] = u.get("drops", [])
     res["not_covered"] = u.get("not_covered", [])
     res["paired_kani"] = u.get("paired_kani", [])
-    os.makedirs(os.path.join(WORK, "verus", u["unit"]), exist_ok=True)
-    gdir = os.path.join(WORK, "verus", u["unit"])
+    # one directory per (property being checked, unit): checks of two properties that share a unit may run at the same
+    # time and must not write each other's generated file
+    gdir = os.path.join(WORK, "verus", os.environ.get("VERIF_WORK_TAG", "dev"), u["unit"])
+    os.makedirs(gdir, exist_ok=True)
     if u.get("generated_by"):
         # the specification side of this unit is generated from /repo (register names and the slots
         # get_register_always reads): it is regenerated on every run and the fresh text is what gets verified, so
